@@ -35,6 +35,7 @@
 //  * cron: day-of-month and day-of-week both restricted = both must hold (what the bundled ccronexpr implements).  Expressions
 //    that exposed the three ccronexpr defects (see cron_cases()) are evaluated by default; C20_CRON_KNOWN_DEFECTS=0 leaves them out.
 #include "hist/hist.h"
+#include "probe.h"
 #include <tbox/event/loop.h>
 #include <tbox/event/timer_event.h>
 #include <tbox/event/common_loop.h>
@@ -45,6 +46,7 @@
 #include <tbox/alarm/workday_alarm.h>
 #include <tbox/alarm/workday_calendar.h>
 #include <tbox/alarm/cron_alarm.h>
+#include <tbox/alarm/3rd-party/ccronexpr.h>
 #include <sys/syscall.h>
 #include <sys/time.h>
 #include <time.h>
@@ -57,6 +59,10 @@
 using namespace tbox;
 using namespace tbox::alarm;
 
+// members that only feed the canonical state key / diagnostics are read through probes (a rename must not stop the check from building)
+VF_PROBE(state_) VF_PROBE(fired_utc_sec_) VF_PROBE(using_independ_timezone_) VF_PROBE(timezone_offset_seconds_) VF_PROBE(watch_alarms_)
+VF_PROBE(seconds_of_day_) VF_PROBE(week_mask_) VF_PROBE(workday_) VF_PROBE(wp_calendar_) VF_PROBE(sp_cron_expr_)
+
 // ------------------------------------------------------------------------------------------------
 // virtual clocks: alarm.cpp reads the wall clock through gettimeofday() only; the loop's timer code
 // (common_loop_timer.cpp) reads std::chrono::steady_clock::now() = clock_gettime(CLOCK_MONOTONIC).
@@ -65,15 +71,19 @@ using namespace tbox::alarm;
 // explorer's own deadline (hist.h uses steady_clock) keeps running on real time.
 static bool g_virt = false;
 static int64_t g_wall_ms = 0, g_mono_ms = 0;
+// microseconds on top of g_wall_ms (0..999): the real gettimeofday() is not a multiple of 1000 us.  Constant while a history runs (all advances
+// are whole milliseconds); the armed delay is judged against the wall distance in MICROseconds, so rounding the sub-millisecond part the wrong way shows.
+static int64_t g_wall_sub_us = 0;
+static inline int64_t wall_us() { return g_wall_ms * 1000 + g_wall_sub_us; }
 extern "C" int clock_gettime(clockid_t k, struct timespec *ts) {
   if (g_virt) {
-    if (k == CLOCK_REALTIME || k == CLOCK_REALTIME_COARSE) { ts->tv_sec = g_wall_ms / 1000; ts->tv_nsec = (g_wall_ms % 1000) * 1000000L; return 0; }
+    if (k == CLOCK_REALTIME || k == CLOCK_REALTIME_COARSE) { ts->tv_sec = g_wall_ms / 1000; ts->tv_nsec = (g_wall_ms % 1000) * 1000000L + g_wall_sub_us * 1000L; return 0; }
     if (k == CLOCK_MONOTONIC || k == CLOCK_MONOTONIC_COARSE || k == CLOCK_MONOTONIC_RAW || k == CLOCK_BOOTTIME) { ts->tv_sec = g_mono_ms / 1000; ts->tv_nsec = (g_mono_ms % 1000) * 1000000L; return 0; }
   }
   return (int)syscall(SYS_clock_gettime, k, ts);
 }
 extern "C" int gettimeofday(struct timeval *tv, void *tz) {
-  if (g_virt) { tv->tv_sec = g_wall_ms / 1000; tv->tv_usec = (g_wall_ms % 1000) * 1000; return 0; }
+  if (g_virt) { tv->tv_sec = g_wall_ms / 1000; tv->tv_usec = (g_wall_ms % 1000) * 1000 + g_wall_sub_us; return 0; }
   return (int)syscall(SYS_gettimeofday, tv, tz);
 }
 extern "C" time_t time(time_t *t) {
@@ -234,12 +244,13 @@ static void judge(Sweep &sw, const char *kind, bool ok, int64_t now, int64_t got
 static const int64_t BASE_LO = 0, BASE_MID = (1LL << 31) - WEEK / 2, DOMAIN_END = TWO32 - WEEK - 14 * 3600 /* exclusive */, BASE_HI = DOMAIN_END - WEEK;
 
 // drive the REAL Alarm::activeTimer under the virtual wall clock: (re)arm at `now_ms` and read the instant it armed for
-struct Armed { bool ok; int64_t target; int64_t delay_ms; uint32_t remain; };
+struct Armed { bool ok; int64_t target; int64_t delay_ms; uint32_t remain; int64_t sub_us; };
 static Armed arm_at(Alarm &a, event::Loop *loop, int64_t now_ms, int tz_min, uint64_t &since_pass) {
-  Virt v; g_wall_ms = now_ms; g_mono_ms = 1000000 + (now_ms % 977);
+  static const int kSub[8] = {0, 1, 499, 500, 501, 700, 998, 999}; static unsigned sub_i = 0;
+  Virt v; g_wall_ms = now_ms; g_wall_sub_us = kSub[sub_i++ & 7]; g_mono_ms = 1000000 + (now_ms % 977);
   a.setTimezone(tz_min);
-  if (a.isEnabled()) a.refresh(); else { a.target_utc_sec_ = 0; a.enable(); }   // fresh arming: no previous target (refresh() clears it itself)
-  Armed r; r.ok = a.isEnabled(); r.target = a.target_utc_sec_; r.remain = a.remainSeconds();
+  if (a.isEnabled()) a.refresh(); else a.enable();
+  Armed r; r.sub_us = g_wall_sub_us; r.ok = a.isEnabled(); r.target = a.target_utc_sec_; r.remain = a.remainSeconds();
   r.delay_ms = static_cast<event::TimerEventImpl *>(a.sp_timer_ev_)->interval_.count();
   if (++since_pass >= 200) { since_pass = 0; if (a.isEnabled()) a.disable(); loop->runNext([] {}); loop->runLoop(event::Loop::Mode::kOnce); }   // drain the deferred timer frees (alarm disarmed: no callback can run here)
   return r;
@@ -247,8 +258,8 @@ static Armed arm_at(Alarm &a, event::Loop *loop, int64_t now_ms, int tz_min, uin
 template <class F>
 static void judge_delay(Sweep &sw, const char *kind, const Armed &r, int64_t now_ms, F &&input) {
   if (!r.ok) return;
-  int64_t dist = r.target * 1000 - now_ms;
-  if (r.delay_ms < dist) sw.viol(dist > 0xffffffffLL ? "alarm-delay-ms-overflow-32bit" : "alarm-delay-shorter-than-distance", "", [&] { return input() + fmt(" target=%" PRId64 " armed_delay_ms=%" PRId64 " distance_ms=%" PRId64, r.target, r.delay_ms, dist); });
+  int64_t dist = r.target * 1000 - now_ms, dist_us = r.target * 1000000 - (now_ms * 1000 + r.sub_us);   // the wall clock read now_ms + sub_us microseconds
+  if (r.delay_ms * 1000 < dist_us) sw.viol(dist > 0xffffffffLL ? "alarm-delay-ms-overflow-32bit" : "alarm-delay-shorter-than-distance", "", [&] { return input() + fmt(" (+%d us) target=%" PRId64 " armed_delay_ms=%" PRId64 " distance_us=%" PRId64, (int)r.sub_us, r.target, r.delay_ms, dist_us); });
   if ((int64_t)r.remain != r.target - now_ms / 1000) sw.viol(kind, "-remainSeconds-mismatch", [&] { return input() + fmt(" remain=%u", r.remain); });
 }
 
@@ -470,7 +481,8 @@ static int sweep_workday(int part, int nparts, bool thorough) {
   sw.finish(); delete loop; return 0;
 }
 
-struct CronCase { std::string expr; RefCfg ref; const char *known_defect = nullptr; };
+struct CronCase { std::string expr; RefCfg ref; const char *known_defect = nullptr; const char *off_switch = nullptr; };   // off_switch: evaluated only when that environment variable is "1" (defect candidate on the unchanged tree)
+static bool env_is_1(const char *k) { const char *e = getenv(k); return e && *e == '1'; }
 // Expressions the bundled ccronexpr (modules/alarm/3rd-party/ccronexpr.cpp) answered wrongly when they were added (three defects in
 // do_next()/find_next(); repair in /verif/build/c20_cron_fix.diff).  They are evaluated by default; C20_CRON_KNOWN_DEFECTS=0 leaves them out
 // (e.g. to look at the rest of the check on a tree that does not have the repair yet):
@@ -511,6 +523,14 @@ static void cron_cases(std::vector<CronCase> &out) {
   sets("0 0 0 * * 6-7", 1, 1, 1, 0, 0, (uint32_t)B({6, 0}), 9);
   sets("59 59 23 ? 3-12/3 SUN,WED", B({59}), B({59}), (uint32_t)B({23}), 0, (uint32_t)B({3, 6, 9, 12}), (uint32_t)B({0, 3}), 2 * 366, "month-overflow");
   sets("0 0 0 ? 3-12/3 SUN,WED", 1, 1, 1, 0, (uint32_t)B({3, 6, 9, 12}), (uint32_t)B({0, 3}), 2 * 366, "month-overflow");
+  // spellings: lower / mixed case names, a step over '*' in day-of-month
+  sets("0 0 0 * jan,jul mon-fri", 1, 1, 1, 0, (uint32_t)B({1, 7}), (uint32_t)B({1, 2, 3, 4, 5}), 2 * 366);
+  sets("0 0 12 ? Mar Sat", 1, 1, (uint32_t)B({12}), 0, (uint32_t)B({3}), (uint32_t)B({6}), 2 * 366);
+  sets("0 0 0 */10 * *", 1, 1, 1, (uint32_t)B({1, 11, 21, 31}), 0, 0, 40);
+  // numbers with a leading zero: every cron reads them as decimal; ccronexpr's parse_uint() uses strtol(.., 0), so "08" is rejected (initialize() fails) and
+  // "010" silently means 8.  Defect candidate on the unchanged tree: evaluated only with C20_CRON_LEADING_ZERO=1
+  sets("0 30 08 * * *", 1, B({30}), (uint32_t)B({8}), 0, 0, 0, 3); out.back().off_switch = "C20_CRON_LEADING_ZERO";
+  sets("0 0 010 * * *", 1, 1, (uint32_t)B({10}), 0, 0, 0, 3); out.back().off_switch = "C20_CRON_LEADING_ZERO";
   sets("0 0 0 ? 1-7/2 SUN,WED", 1, 1, 1, 0, (uint32_t)B({1, 3, 5, 7}), (uint32_t)B({0, 3}), 2 * 366);
 }
 
@@ -525,6 +545,7 @@ static int sweep_cron(int part, int nparts, bool thorough) {
       if ((int)(ci % nparts) != part) continue;
       CronCase &c = cases[ci];
       if (c.known_defect && !cron_known_defects_enabled()) { printf("@INFO cron: expr='%s' not evaluated (C20_CRON_KNOWN_DEFECTS=0; it exposed the ccronexpr defect '%s')\n", c.expr.c_str(), c.known_defect); continue; }
+      if (c.off_switch && !env_is_1(c.off_switch)) { printf("@INFO cron: expr='%s' not evaluated (defect candidate on the unchanged tree; %s=1 evaluates it)\n", c.expr.c_str(), c.off_switch); continue; }
       CronProbe a(loop); a.setCallback([] {});
       if (!a.initialize(c.expr)) { sw.viol("cron-initialize-rejected", c.expr); continue; }
       // `now` values: windows of days (dense boundary seconds inside each day) + one probe per day over several years for the yearly shape
@@ -579,24 +600,27 @@ static int sweep_cron(int part, int nparts, bool thorough) {
 // ------------------------------------------------------------------------------------------------
 // firing: engine H
 // what the alarm's callback does besides being recorded (re-entrant use of the alarm from its own callback)
-enum CbAction { CB_NONE, CB_ENABLE, CB_REFRESH, CB_DISABLE, CB_REINIT_ENABLE };
-static const char *kCbNames[] = {"none", "enable()", "refresh()", "disable()", "initialize(same configuration) + enable()"};
+enum CbAction { CB_NONE, CB_ENABLE, CB_REFRESH, CB_DISABLE, CB_REINIT_ENABLE, CB_CLEANUP, CB_CAL_UPDATE, CB_TZ_REFRESH };
+static const char *kCbNames[] = {"none", "enable()", "refresh()", "disable()", "initialize(same configuration) + enable()", "cleanup()",
+                                 "calendar update (tomorrow becomes a matching day)", "setTimezone(other zone) + refresh()"};
 struct FireCfg {
   std::string name; RefCfg ref; int alarm_kind;   // 0 weekly, 1 oneshot, 2 cron, 3 workday
   std::string cron; int tz_min; int64_t start_ms; bool wall_steps; int cb_action = CB_NONE; bool cal_ops = false;
+  int sub_us = 0;            // microseconds of the wall clock on top of the millisecond values (see g_wall_sub_us)
   bool far_target = false;   // target 40..400 days ahead (every arming is an expensive day-by-day search): these configurations are about the delay arithmetic and keep the basic alphabet (no initialize/cleanup/zone toggle)
 };
-enum { EN, DIS, REF, PASS, SKEW, WPLUS, WMINUS, ADV_HALF, ADV_M5, ADV_T, ADV_P1, INIT, CLEANUP, SETTZ, CAL_OFF, CAL_WORK, CAL_CLEAR, NOPS };
+enum { EN, DIS, REF, PASS, SKEW, WPLUS, WMINUS, ADV_HALF, ADV_M5, ADV_T, ADV_P1, INIT, CLEANUP, SETTZ, CAL_OFF, CAL_WORK, CAL_CLEAR, INIT_BAD, NOPS };
 static const char *kOpNames[] = {"enable", "disable", "refresh", "pass", "skew-mono+5ms", "wall+1h", "wall-1h", "adv-half", "adv-to-T-5ms", "adv-to-T", "adv-to-T+1s",
-                                 "initialize", "cleanup", "toggle-tz-180min", "cal-next-matching-day-off", "cal-tomorrow-matches", "cal-clear-special-days"};
+                                 "initialize", "cleanup", "toggle-tz-180min", "cal-next-matching-day-off", "cal-tomorrow-matches", "cal-clear-special-days", "initialize-with-invalid-arguments"};
 struct Op { int k; };
 
 static std::vector<FireCfg> fire_cfgs() {
   std::vector<FireCfg> v;
   auto mk = [&](const char *n, int kind, RefCfg ref, const char *cron, int tz, int64_t start_ms, bool ws) { FireCfg c; c.name = n; c.alarm_kind = kind; c.ref = ref; c.cron = cron ? cron : ""; c.tz_min = tz; c.start_ms = start_ms; c.wall_steps = ws;
+    static const int kSubs[7] = {700, 0, 499, 500, 999, 1, 501}; c.sub_us = kSubs[v.size() % 7];
     c.far_target = strstr(n, "-days-ahead") != nullptr; v.push_back(c); };
   // the same configuration again with an action inside the callback
-  auto with_cb = [&](const char *base, int action, const char *suffix) { for (size_t i = 0; i < v.size(); i++) if (v[i].name == base) { FireCfg c = v[i]; c.name += suffix; c.cb_action = action; v.push_back(c); return; } };
+  auto with_cb = [&](const char *base, int action, const char *suffix) { for (size_t i = 0; i < v.size(); i++) if (v[i].name == base) { FireCfg c = v[i]; c.name += suffix; c.cb_action = action; if (c.cal_ops) c.wall_steps = false;   /* cost: calendar ops x wall steps only on the plain configurations */ v.push_back(c); return; } };
   RefCfg w; w.kind = RefCfg::WEEKLY; w.horizon_days = 8;
   w.sod = 36000; w.mask = 0x7f; mk("weekly-10h-everyday-tz0", 0, w, nullptr, 0, utc(2023, 10, 2, 9, 0, 0) * 1000 + 250, true);
   mk("weekly-10h-everyday-start-5ms-before", 0, w, nullptr, 0, utc(2023, 10, 2, 10, 0, 0) * 1000 - 5, false);
@@ -620,25 +644,39 @@ static std::vector<FireCfg> fire_cfgs() {
   mk("cron-8h-and-20h-tz+60", 2, s2, "0 0 8,20 * * *", 60, (utc(2023, 10, 2, 7, 30, 0) - 3600) * 1000 + 400, true);
   // Monday..Friday 08:30 under a calendar whose special days are updated while the alarm runs; starts on Friday 2023-10-06 08:00
   RefCfg k2; k2.kind = RefCfg::WORKDAY; k2.horizon_days = 367; k2.sod = 30600; k2.cal_mask = 0x3e; k2.on_workday = true;
-  mk("workday-weekdays-0830-calendar-updates", 3, k2, nullptr, 0, utc(2023, 10, 6, 8, 0, 0) * 1000 + 100, false); v.back().cal_ops = true;
+  mk("workday-weekdays-0830-calendar-updates", 3, k2, nullptr, 0, utc(2023, 10, 6, 8, 0, 0) * 1000 + 100, true); v.back().cal_ops = true;
   k2.on_workday = false; k2.sod = 0;
   mk("workday-holidays-00h-calendar-updates-tz+480", 3, k2, nullptr, 480, (utc(2023, 10, 6, 23, 0, 0) - 480 * 60) * 1000, false); v.back().cal_ops = true;
+  // repeating alarms that RUN OUT of instants at a fire: the re-arm inside the expiry handler finds nothing, the alarm must end up stopped (and can be revived)
+  RefCfg k3; k3.kind = RefCfg::WORKDAY; k3.horizon_days = 367; k3.sod = 30600; k3.cal_mask = 0; k3.on_workday = true; k3.special[(int)days_from_civil(2023, 10, 7)] = true;
+  mk("workday-only-tomorrow-then-none", 3, k3, nullptr, 0, utc(2023, 10, 6, 8, 0, 0) * 1000 + 100, true); v.back().cal_ops = true;
+  RefCfg y2; y2.kind = RefCfg::CRON_DM; y2.horizon_days = 366 * 4; y2.sod = 0; y2.dom = 29; y2.mon = 2;   // after 2096-02-29 the next one is 2104 (2100 is no leap year): beyond ccronexpr's 4-year horizon
+  mk("cron-feb29-2096-then-none-within-4-years", 2, y2, "0 0 0 29 2 *", 0, utc(2096, 2, 28, 23, 0, 0) * 1000 + 300, true); v.back().far_target = true;   // every failed search walks 5 years day by day
   // re-entrant use from the callback
   with_cb("oneshot-10h-tz0", CB_ENABLE, "-cb-enable");
   with_cb("oneshot-00h-tz+345", CB_REINIT_ENABLE, "-cb-reinit-enable");
-  with_cb("oneshot-10h-tz0", CB_REFRESH, "-cb-refresh");
   with_cb("weekly-10h-everyday-tz0", CB_DISABLE, "-cb-disable");
   with_cb("weekly-10h-everyday-tz0", CB_REFRESH, "-cb-refresh");
   with_cb("weekly-10h-everyday-tz0", CB_ENABLE, "-cb-enable");
   with_cb("cron-daily-10h-tz0", CB_REFRESH, "-cb-refresh");
   with_cb("cron-daily-10h-tz0", CB_DISABLE, "-cb-disable");
   with_cb("workday-weekdays-0830-calendar-updates", CB_REFRESH, "-cb-refresh");
+  with_cb("weekly-10h-everyday-tz0", CB_CLEANUP, "-cb-cleanup");
+  with_cb("oneshot-10h-tz0", CB_CLEANUP, "-cb-cleanup");
+  with_cb("workday-weekdays-0830-calendar-updates", CB_CLEANUP, "-cb-cleanup");
+  with_cb("workday-weekdays-0830-calendar-updates", CB_CAL_UPDATE, "-cb-calendar-update");
+  with_cb("workday-only-tomorrow-then-none", CB_CAL_UPDATE, "-cb-calendar-update");
+  with_cb("weekly-10h-everyday-tz0", CB_TZ_REFRESH, "-cb-tz-refresh");
   return v;
 }
 
 // what the callback sees of the alarm, its TimerEvent and the loop's timer heap
 struct Snap { uint32_t target; int64_t delay_ms; bool timer_on; bool running; size_t heap_n; int64_t heap_left; };
-struct Fire { int64_t wall_ms; Snap pre, post; int r_init, r_act; };   // pre/post = before/after the callback's own action; r_* = its return values (-1 = not called)
+struct Fire { int64_t wall_ms; Snap pre, post; int r_init, r_act; int cal_day; int tz_min_after; };   // pre/post = before/after the callback's own action; r_* = its return values (-1 = not called)
+
+// CronAlarm::initialize(valid) followed by initialize(invalid) returns false but leaves the alarm initialised with a PARTIAL expression
+// (memset + partial parse), which enable() then arms: defect candidate on the unchanged tree, so the op is off by default for cron alarms.
+static bool cron_rejected_init_enabled() { const char *e = getenv("C20_CRON_REJECTED_INIT"); return e && *e == '1'; }
 
 static int fire(const std::string &cfgname, size_t depth, const char *replay = nullptr) {
   std::vector<FireCfg> cfgs = fire_cfgs(); const FireCfg *cfgp = nullptr;
@@ -661,17 +699,19 @@ static int fire(const std::string &cfgname, size_t depth, const char *replay = n
     for (int k : {EN, DIS, REF, PASS}) m.push_back({k});
     if (!l.need_pass) for (int k : {ADV_T, ADV_P1, ADV_M5, ADV_HALF}) m.push_back({k});
     if (l.skews < 2) m.push_back({SKEW});
-    if (!cfg.far_target) { m.push_back({INIT}); if (l.cleanups < 1) m.push_back({CLEANUP}); }
-    if (cfg.wall_steps && l.steps < 2) { m.push_back({WPLUS}); m.push_back({WMINUS}); if (!cfg.far_target) m.push_back({SETTZ}); }
-    if (cfg.cal_ops && l.calops < 2) { m.push_back({CAL_OFF}); m.push_back({CAL_WORK}); m.push_back({CAL_CLEAR}); }
+    if (!cfg.far_target) { m.push_back({INIT}); if (l.cleanups < (depth >= 8 ? 2 : 1)) m.push_back({CLEANUP}); if (cfg.alarm_kind != 2 || cron_rejected_init_enabled()) m.push_back({INIT_BAD}); }
+    // wall steps / zone toggles: two per history; on the calendar configurations one, and steps + calendar ops together are two (cost)
+    if (cfg.wall_steps && (cfg.cal_ops ? l.steps < 1 && l.steps + l.calops < 2 : l.steps < 2)) { m.push_back({WPLUS}); m.push_back({WMINUS}); if (!cfg.far_target) m.push_back({SETTZ}); }
+    if (cfg.cal_ops && (cfg.wall_steps ? l.steps + l.calops < 2 : l.calops < 2)) { m.push_back({CAL_OFF}); m.push_back({CAL_WORK}); m.push_back({CAL_CLEAR}); }
     return m; };
   uint64_t total_fires = 0, total_arms = 0, premature = 0, cb_actions = 0; std::map<std::string, uint64_t> outcomes;
   ex.run = [&](const std::vector<Op> &h, std::string &viol) -> std::string {
-    Virt virt; g_wall_ms = cfg.start_ms; g_mono_ms = 5000000;
+    Virt virt; g_wall_ms = cfg.start_ms; g_wall_sub_us = cfg.sub_us; g_mono_ms = 5000000;
     event::Loop *loop = event::Loop::New();
     WorkdayCalendar cal;
     RefCfg rc = cfg.ref;                       // the configuration in force (the calendar ops change its special days)
-    int tz_min_cur = cfg.tz_min, tz = cfg.tz_min * 60;   // the explicit time-zone offset in force
+    int tz_min_cur = cfg.tz_min, tz = cfg.tz_min * 60;   // the explicit time-zone offset in force (tz_min_cur = last value given to setTimezone; tz = the model's, they differ only between a callback that changes the zone and its evaluation)
+    std::map<int, bool> sent_special = rc.special;       // the special days last given to the calendar (differs from rc.special only between a callback that updates the calendar and its evaluation)
     int tz_armed = tz;                                   // ... and the one that was in force when the alarm last (re)armed: a callback belongs to the instant it was armed for
     WeeklyAlarm *wa = nullptr; OneshotAlarm *oa = nullptr; CronAlarm *ca = nullptr; WorkdayAlarm *ka = nullptr;
     std::unique_ptr<Alarm> ap;
@@ -688,16 +728,23 @@ static int fire(const std::string &cfgname, size_t depth, const char *replay = n
                       s.heap_left = cl->timer_min_heap_.empty() ? -1 : (int64_t)(cl->timer_min_heap_.front()->expired - (uint64_t)g_mono_ms); return s; };
     std::vector<Fire> fires;
     bool storm = false;
-    std::function<void()> cb = [&] {
-      Fire f; f.wall_ms = g_wall_ms; f.pre = snap(); f.r_init = f.r_act = -1;
+    std::function<void()> cb_body = [&] {
+      Fire f; f.wall_ms = g_wall_ms; f.pre = snap(); f.r_init = f.r_act = -1; f.cal_day = 0; f.tz_min_after = tz_min_cur;
       if (fires.size() >= 15) { storm = true; a.disable(); }   // re-arming with a zero delay would never leave the loop pass
       else switch (cfg.cb_action) {
         case CB_ENABLE: f.r_act = a.enable(); break;
         case CB_REFRESH: a.refresh(); break;
         case CB_DISABLE: f.r_act = a.disable(); break;
         case CB_REINIT_ENABLE: f.r_init = do_init(); f.r_act = a.enable(); break;
+        case CB_CLEANUP: a.cleanup(); break;     // destroys the alarm's copy of the callback WHILE it runs (cleanup() does cb_ = nullptr): see `cb` below
+        case CB_CAL_UPDATE: f.cal_day = (int)fdiv(fdiv(g_wall_ms, 1000) + tz_min_cur * 60, DAY) + 1; sent_special[f.cal_day] = cfg.ref.on_workday; cal.updateSpecialDays(sent_special); break;
+        case CB_TZ_REFRESH: tz_min_cur = tz_min_cur == cfg.tz_min ? cfg.tz_min - 180 : cfg.tz_min; f.tz_min_after = tz_min_cur; a.setTimezone(tz_min_cur); a.refresh(); break;
         default: break; }
       f.post = snap(); fires.push_back(f); };
+    // What the alarm stores is a one-pointer closure that copies the pointer to a local BEFORE anything runs and never touches itself again: the body and
+    // everything it uses live in this frame.  (A callback with by-reference captures that calls cleanup() on its own alarm would read its freed closure.)
+    std::function<void()> *pbody = &cb_body;
+    std::function<void()> cb = [pbody] { std::function<void()> *b = pbody; (*b)(); };
     a.setCallback(cb);
     watchdog(30);
     if (!init_ok) viol = "alarm-initialize-rejected";
@@ -705,6 +752,8 @@ static int fire(const std::string &cfgname, size_t depth, const char *replay = n
     bool m_inited = true, m_enabled = false, m_synced = false; int64_t m_last_fired = -1, m_pending = -1; std::set<int64_t> m_fired; int m_fires_since_enable = 0, m_skew_ms = 0; const char *m_rearmed_by = ""; int64_t m_ever_fired = -1;   // explicit re-arming op since the last callback
     const bool oneshot = cfg.alarm_kind == 1;
     auto ref_next = [&](int64_t now_sec) { return rc.next_utc(now_sec, tz); };
+    // no instant left under at least one of the accepted lower bounds (now; the last counted instant; any instant that ever had a callback - see on_armed): the alarm may stop / refuse to start
+    auto none_left = [&](int64_t t) { return ref_next(t) < 0 || ref_next(std::max(t, m_last_fired)) < 0 || ref_next(std::max(t, m_ever_fired)) < 0; };
     // called whenever the alarm (re)arms: at wall clock `at_ms` the implementation armed for s.target with delay s.delay_ms
     auto on_armed = [&](int64_t at_ms, const Snap &s, const char *how) {
       total_arms++;
@@ -718,9 +767,9 @@ static int fire(const std::string &cfgname, size_t depth, const char *replay = n
       // the instant's callback has already run (the monotonic clock was ahead) and nothing re-exposed it (a backward step / cleanup() erases it from m_fired):
       // arming for it again IS the second callback for one instant, whether or not the history goes on to the pass that delivers it
       if (target == alt && m_fired.count(alt)) { viol = fmt("alarm-armed-for-instant-that-already-fired after %s at wall_ms=%" PRId64 ": instant=%" PRId64 " had its callback, yet the alarm waits for it again (delay %" PRId64 " ms)", how, at_ms, target, s.delay_ms); return; }
-      int64_t dist = target * 1000 - at_ms;
-      if (s.delay_ms < dist) { viol = fmt("%s after %s at wall_ms=%" PRId64 ": target=%" PRId64 " distance_ms=%" PRId64 " (%.1f days) armed_delay_ms=%" PRId64 " (%.1f days)", dist > 0xffffffffLL ? "alarm-delay-ms-overflow-32bit" : "alarm-delay-shorter-than-distance", how, at_ms, target, dist, dist / 86400000.0, s.delay_ms, s.delay_ms / 86400000.0); return; }
-      if (s.heap_n != 1 || s.heap_left < dist) { viol = fmt("alarm-loop-timer-record-shorter-than-distance after %s at wall_ms=%" PRId64 " (loop timer records=%zu, first due in %" PRId64 " ms, distance %" PRId64 " ms)", how, at_ms, s.heap_n, s.heap_left, dist); return; }
+      int64_t dist = target * 1000 - at_ms, dist_us = target * 1000000 - (at_ms * 1000 + g_wall_sub_us);   // the wall clock read at_ms + g_wall_sub_us microseconds
+      if (s.delay_ms * 1000 < dist_us) { viol = fmt("%s after %s at wall_ms=%" PRId64 ": target=%" PRId64 " distance_ms=%" PRId64 " (%.1f days) armed_delay_ms=%" PRId64 " (%.1f days)", dist > 0xffffffffLL ? "alarm-delay-ms-overflow-32bit" : "alarm-delay-shorter-than-distance", how, at_ms, target, dist, dist / 86400000.0, s.delay_ms, s.delay_ms / 86400000.0); return; }
+      if (s.heap_n != 1 || s.heap_left * 1000 < dist_us) { viol = fmt("alarm-loop-timer-record-shorter-than-distance after %s at wall_ms=%" PRId64 " (loop timer records=%zu, first due in %" PRId64 " ms, distance %" PRId64 " ms)", how, at_ms, s.heap_n, s.heap_left, dist); return; }
     };
     // the model's side of what the callback did (f.post = what the implementation looked like right after it)
     auto apply_cb_action = [&](const Fire &f) {
@@ -729,12 +778,17 @@ static int fire(const std::string &cfgname, size_t depth, const char *replay = n
       int64_t ws = fdiv(f.wall_ms, 1000);
       switch (cfg.cb_action) {
         case CB_DISABLE: if ((f.r_act == 1) != m_enabled) { viol = fmt("alarm-disable-return-value in callback: returned %d, running=%d", f.r_act, (int)m_enabled); return; } m_enabled = false; break;
-        case CB_REFRESH: if (m_enabled) { m_rearmed_by = "-after-refresh"; if (f.post.running) on_armed(f.wall_ms, f.post, "refresh() in callback"); else if (ref_next(std::max(ws, m_last_fired)) < 0) m_enabled = false; } break;
+        case CB_REFRESH: if (m_enabled) { m_rearmed_by = "-after-refresh"; if (f.post.running) on_armed(f.wall_ms, f.post, "refresh() in callback"); else if (none_left(ws)) m_enabled = false; } break;
+        case CB_CLEANUP: m_enabled = false; m_inited = false; m_fired.clear(); m_last_fired = -1; m_pending = -1; m_fires_since_enable = 0; break;
+        case CB_CAL_UPDATE: rc.special[f.cal_day] = rc.on_workday;
+          if (m_enabled) { m_rearmed_by = "-after-calendar-update"; if (f.post.running) on_armed(f.wall_ms, f.post, "calendar update in callback"); else if (none_left(ws)) m_enabled = false; } break;
+        case CB_TZ_REFRESH: tz = f.tz_min_after * 60;
+          if (m_enabled) { m_rearmed_by = "-after-refresh"; if (f.post.running) on_armed(f.wall_ms, f.post, "setTimezone() + refresh() in callback"); else if (none_left(ws)) m_enabled = false; } else m_synced = false; break;
         case CB_REINIT_ENABLE: if ((f.r_init == 1) != !m_enabled) { viol = f.r_init == 1 ? "alarm-initialize-accepted-while-running (in callback)" : "alarm-initialize-rejected in callback although the alarm is stopped"; return; }   // fall through
         case CB_ENABLE:
           if (m_enabled) { if (f.r_act == 1) { viol = "alarm-enable-returned-true-while-running (in callback)"; return; } }
           else if (f.r_act == 1) { m_enabled = true; m_fires_since_enable = 0; m_rearmed_by = "-after-reenable"; on_armed(f.wall_ms, f.post, "enable() in callback"); }
-          else if (ref_next(ws) >= 0 && ref_next(std::max(ws, m_last_fired)) >= 0) { viol = "alarm-enable-failed in callback although a matching instant exists"; return; }
+          else if (!none_left(ws)) { viol = "alarm-enable-failed in callback although a matching instant exists"; return; }
           break;
         default: break; }
       if (viol.empty() && (f.post.running != m_enabled || f.post.timer_on != m_enabled)) viol = fmt("alarm-enabled-state-mismatch after %s in callback: isEnabled=%d timer=%d expected=%d", kCbNames[cfg.cb_action], (int)f.post.running, (int)f.post.timer_on, (int)m_enabled);
@@ -747,19 +801,29 @@ static int fire(const std::string &cfgname, size_t depth, const char *replay = n
       int64_t N = ref_next(now_sec); int64_t dist_ms = N < 0 ? DAY * 1000 : N * 1000 - g_wall_ms;
       if (tev->is_enabled_ && !cl->timer_min_heap_.empty()) { int64_t left = (int64_t)(cl->timer_min_heap_.front()->expired - (uint64_t)g_mono_ms); if (!m_synced && left < dist_ms) dist_ms = std::max<int64_t>(left, 0); }   // overdue (monotonic clock ahead): the loop would wake up now, no sleeping across it
       switch (k) {
-        case EN: { bool r = a.enable(); bool exp_ok = !m_enabled && N >= 0 && ref_next(std::max(now_sec, m_last_fired)) >= 0;
+        case EN: { bool r = a.enable(); bool exp_ok = !m_enabled && !none_left(now_sec);
           if (!m_inited) { if (r) viol = "alarm-enable-succeeded-after-cleanup-without-initialize"; }
           else if (!m_enabled) { if (r) { m_enabled = true; m_fires_since_enable = 0; m_rearmed_by = "-after-reenable"; on_armed(g_wall_ms, snap(), "enable"); } else if (exp_ok) viol = "alarm-enable-failed although a matching instant exists"; }
           else if (r) viol = "alarm-enable-returned-true-while-running";
         } break;
         case DIS: { bool r = a.disable(); if (r != m_enabled) viol = "alarm-disable-return-value"; m_enabled = false; } break;
         case REF: { a.refresh(); if (m_enabled) { m_rearmed_by = "-after-refresh"; if (a.isEnabled()) on_armed(g_wall_ms, snap(), "refresh");
-                                                  else if (N < 0) m_enabled = false;   /* nothing left to wait for: refresh() leaves the alarm stopped */ } } break;
+                                                  else if (none_left(now_sec)) m_enabled = false;   /* nothing left to wait for: refresh() leaves the alarm stopped */ } } break;
         case INIT: {   // initialize() again with the same configuration: refused while running; otherwise nothing observable changes (what already fired stays fired)
           if (!m_inited) { a.setCallback(cb); a.setTimezone(tz_min_cur); }     // cleanup() dropped both
           bool r = do_init();
           if (r == m_enabled) viol = r ? "alarm-initialize-accepted-while-running" : "alarm-initialize-rejected although the alarm is stopped";
           if (r) m_inited = true; } break;
+        case INIT_BAD: {   // initialize() with invalid arguments (and otherwise DIFFERENT values than configured) must be refused and leave the alarm exactly as it was
+          const char *which = ""; int sod2 = (cfg.ref.sod + 1800) % 86400;
+          if (wa) { std::string other = mask_str(cfg.ref.mask ^ 0x7f);
+            if (wa->initialize(-1, other)) which = "seconds-of-day=-1"; else if (wa->initialize(86400, other)) which = "seconds-of-day=86400";
+            else if (wa->initialize(sod2, "111111")) which = "mask of 6 characters"; else if (wa->initialize(sod2, "11111111")) which = "mask of 8 characters"; }
+          else if (oa) { if (oa->initialize(-1)) which = "seconds-of-day=-1"; else if (oa->initialize(86400)) which = "seconds-of-day=86400"; }
+          else if (ka) { if (ka->initialize(-1, &cal, !cfg.ref.on_workday)) which = "seconds-of-day=-1"; else if (ka->initialize(86400, &cal, !cfg.ref.on_workday)) which = "seconds-of-day=86400";
+            else if (ka->initialize(sod2, nullptr, !cfg.ref.on_workday)) which = "calendar=nullptr"; }
+          else if (ca) { if (ca->initialize("0 0 10 * * 1,9")) which = "day-of-week 9"; }
+          if (*which) viol = fmt("alarm-initialize-accepted-invalid-arguments (%s)", which); } break;
         case CLEANUP: {   // back to the un-initialised state: stops the alarm; what fired before is forgotten (both re-firing and not re-firing an instant are accepted afterwards)
           a.cleanup(); m_enabled = false; m_inited = false; m_fired.clear(); m_last_fired = -1; m_pending = -1; m_fires_since_enable = 0; } break;
         case SETTZ: { tz_min_cur = tz_min_cur == cfg.tz_min ? cfg.tz_min - 180 : cfg.tz_min; tz = tz_min_cur * 60; a.setTimezone(tz_min_cur); m_synced = false; } break;   // like a wall step: unknown to the alarm until enable()/refresh()
@@ -767,10 +831,10 @@ static int fire(const std::string &cfgname, size_t depth, const char *replay = n
           if (k == CAL_OFF) { if (N >= 0) rc.special[(int)fdiv(N + tz, DAY)] = !rc.on_workday; }        // the day of the next matching instant stops matching
           else if (k == CAL_WORK) rc.special[(int)fdiv(now_sec + tz, DAY) + 1] = rc.on_workday;          // tomorrow (local) becomes a matching day
           else rc.special.clear();
-          cal.updateSpecialDays(rc.special);
+          sent_special = rc.special; cal.updateSpecialDays(sent_special);
           if (m_enabled) { m_rearmed_by = "-after-calendar-update";
             if (a.isEnabled()) on_armed(g_wall_ms, snap(), "calendar update");
-            else if (ref_next(now_sec) < 0 || ref_next(std::max(now_sec, m_last_fired)) < 0) m_enabled = false; } } break;
+            else if (none_left(now_sec)) m_enabled = false; } } break;
         case SKEW: g_mono_ms += 5; m_skew_ms += 5; break;
         case WPLUS: g_wall_ms += 3600000; m_synced = false; break;
         case WMINUS: { g_wall_ms -= 3600000; m_synced = false; int64_t ns = fdiv(g_wall_ms, 1000);
@@ -824,12 +888,20 @@ static int fire(const std::string &cfgname, size_t depth, const char *replay = n
     Lim l = limits(h);
     std::string sp; if (cfg.cal_ops) for (auto &kv : rc.special) sp += fmt("%d%c", kv.first - (int)fdiv(cfg.start_ms / 1000, DAY), kv.second ? 'w' : 'h');
     // implementation part: alarm state, armed target, the last-fired record (the one hidden field that decides the next target), timer, loop heap, calendar subscriptions
+    std::string ck;   // the configuration as the implementation holds it (a refused initialize() must not change it)
+    if (wa) ck = fmt("s%d m%d", VF_GET(seconds_of_day_, *wa, -1), VF_GET(week_mask_, *wa, -1));
+    else if (oa) ck = fmt("s%d", VF_GET(seconds_of_day_, *oa, -1));
+    else if (ka) ck = fmt("s%d w%d c%d", VF_GET(seconds_of_day_, *ka, -1), VF_GET(workday_, *ka, -1), (int)(VF_GET(wp_calendar_, *ka, (const void *)nullptr) != nullptr));
+    else if (ca) { const unsigned char *pe = (const unsigned char *)VF_GET(sp_cron_expr_, *ca, (const void *)nullptr); uint64_t hsh = 1469598103934665603ULL; if (pe) for (size_t i = 0; i < sizeof(cron_expr); i++) hsh = (hsh ^ pe[i]) * 1099511628211ULL; ck = fmt("x%016" PRIx64, hsh); }
+    Snap fin = snap();
     std::string canon = fmt("w%" PRId64 " m%" PRId64 " st%d tg%u fs%u te%d iv%" PRId64 " hp%zu ex%" PRId64 " ws%zu tz%d | in%d en%d sy%d lf%" PRId64 " ef%" PRId64 " rb%zu pe%" PRId64 " nf%zu fe%d sk%d sp%s | %d%d%d%d%d",
-                            g_wall_ms, g_mono_ms - g_wall_ms, (int)a.state_, a.target_utc_sec_, a.fired_utc_sec_, (int)tev->is_enabled_, tev->is_enabled_ ? (int64_t)tev->interval_.count() : -1, cl->timer_min_heap_.size(),
-                            cl->timer_min_heap_.empty() ? -1 : (int64_t)(cl->timer_min_heap_.front()->expired - (uint64_t)g_mono_ms), cal.watch_alarms_.size(), a.using_independ_timezone_ ? a.timezone_offset_seconds_ / 60 : 9999,
+                            g_wall_ms, g_mono_ms - g_wall_ms, VF_GET(state_, a, -1), fin.target, VF_GET(fired_utc_sec_, a, 0u), (int)fin.timer_on, fin.timer_on ? fin.delay_ms : -1, fin.heap_n,
+                            fin.heap_left, VF_SIZE(watch_alarms_, cal, (size_t)0), VF_GET(using_independ_timezone_, a, 1) ? VF_GET(timezone_offset_seconds_, a, 0) / 60 : 9999,
                             (int)m_inited, (int)m_enabled, (int)m_synced, m_last_fired, m_ever_fired, strlen(m_rearmed_by), m_pending, m_fired.size(), m_fires_since_enable, m_skew_ms, sp.c_str(),
                             l.skews, l.steps, l.cleanups, l.calops, (int)l.need_pass);
     if (tz_min_cur != cfg.tz_min) canon += "|tz-alt"; if (tz_armed != tz) canon += "|armed-under-other-tz";
+    canon += "|" + ck;
+    if (vf_any_missing()) for (size_t i = h.size() > 3 ? h.size() - 3 : 0; i < h.size(); i++) canon += fmt(",%d", h[i].k);   // a probed member is gone: make the key finer instead of merging states that can no longer be told apart
     if (viol.empty()) { std::string o = fmt("callbacks=%zu enabled=%d synced=%d", m_fired.size(), (int)m_enabled, (int)m_synced); outcomes[o]++; }
     if (a.isEnabled()) a.disable();
     loop->runNext([] {}); loop->runLoop(event::Loop::Mode::kOnce);
@@ -853,6 +925,9 @@ static int fire(const std::string &cfgname, size_t depth, const char *replay = n
 int main(int argc, char **argv) {
   std::string mode = argc > 1 ? argv[1] : "";
   setvbuf(stdout, nullptr, _IOLBF, 0);
+  // the PROCESS time zone is a DST zone far from UTC (POSIX string, no tzdata needed): every alarm here sets its zone explicitly, so nothing may
+  // depend on it - an explicit offset that falls back to the system zone, or ccronexpr going through mktime()/localtime(), would show
+  setenv("TZ", "XXX-5:45YYY,M3.2.0,M11.1.0", 1); tzset();
 #ifndef C20_ONLY_SWEEP
   if (mode == "fire") return fire(argc > 2 ? argv[2] : "", argc > 3 ? (size_t)atoi(argv[3]) : 6);
   if (mode == "fire-replay") return fire(argc > 2 ? argv[2] : "", 0, argc > 3 ? argv[3] : "");
@@ -866,7 +941,7 @@ int main(int argc, char **argv) {
   if (mode == "sweep-oneshot") return sweep_oneshot(part, nparts, thorough);
   if (mode == "sweep-workday") return sweep_workday(part, nparts, thorough);
   if (mode == "sweep-cron") return sweep_cron(part, nparts, thorough);
-  if (mode == "count-cron-sets") { std::vector<CronCase> cs; cron_cases(cs); int on = 0, off = 0; for (auto &c : cs) if (c.ref.kind == RefCfg::CRON_SETS) ((c.known_defect && !cron_known_defects_enabled()) ? off : on)++; printf("%d %d\n", on, off); return 0; }
+  if (mode == "count-cron-sets") { std::vector<CronCase> cs; cron_cases(cs); int on = 0, off = 0; for (auto &c : cs) if (c.ref.kind == RefCfg::CRON_SETS) (((c.known_defect && !cron_known_defects_enabled()) || (c.off_switch && !env_is_1(c.off_switch))) ? off : on)++; printf("%d %d\n", on, off); return 0; }
 #endif
   printf("@VIOL sig=harness-bad-arguments :: %s\n", mode.c_str());
   return 0;
